@@ -276,7 +276,7 @@ func (c nodeCfg) String() string {
 	return backends[c.be].name + "/" + st
 }
 
-var nodeCfgs = []nodeCfg{{0, false}, {0, true}, {1, false}, {1, true}}
+var nodeCfgs = []nodeCfg{{0, false}, {0, true}, {1, false}, {1, true}, {2, false}, {2, true}}
 
 // baseDiff: genesis of the chain-level runs: declares C0 (Cairo 0) and S1 (Sierra), deploys A with C0.
 func baseSpec(version string, txs []chain.TxSpec) chain.BlockSpec {
